@@ -131,7 +131,7 @@ def run(ctx):
         conc_bin = os.path.join(ctx.bindir, "verifh")
     # groups of 8 different histories run at once, each from several goroutines; histories that need an
     # environment run alone (the environment is process-wide)
-    env = {"PATH": os.environ.get("PATH", ""), "HOME": ctx.work, "TMPDIR": ctx.work, "GORACE": "halt_on_error=1"}
+    env = core.cover_env({"PATH": os.environ.get("PATH", ""), "HOME": ctx.work, "TMPDIR": ctx.work, "GORACE": "halt_on_error=1"})
     groups, cur = [], []
     for i, c in enumerate(cases):
         if env_of(c):
